@@ -1,5 +1,7 @@
-import Driver.Util
-/-! `drv_calendar`: not built yet -/
+import Driver.CalendarDrv
+open Driver
+
 def main : IO UInt32 := do
-  IO.eprintln "drv_calendar: engine not implemented"
-  return 2
+  let lines ← readLines (← IO.getStdin) #[]
+  CalendarDrv.main lines
+  return 0
